@@ -124,9 +124,22 @@ void SelectFdEvent::OnEventCallback(bool is_readable, bool is_writable, bool is_
         tbox_events |= kExceptEvent;
 
     //! 要先复制一份，因为在for中很可能会改动到d->fd_events，引起迭代器失效问题
+    if (data->fd_events.empty())
+        return;
+
+    //! hold a reference during the dispatch: a callback may destroy the last event of this fd, which would release data
+    SelectLoop *wp_loop = data->fd_events.front()->wp_loop_;
+    const int fd = data->fd_events.front()->fd_;
+    ++data->ref;
+
     auto tmp = data->fd_events;
-    for (auto event : tmp)
-        event->onEvent(tbox_events);
+    for (auto event : tmp) {
+        //! an event disabled or destroyed by an earlier callback of this pass must not be called
+        if (std::find(data->fd_events.begin(), data->fd_events.end(), event) != data->fd_events.end())
+            event->onEvent(tbox_events);
+    }
+
+    wp_loop->unrefFdSharedData(fd);
 }
 
 void SelectFdEvent::onEvent(short events)
